@@ -23,7 +23,7 @@ for d in sorted(glob.glob(os.path.join(VERIF, "seeded", "*", ""))):
         continue
     for c in checks:
         t0 = time.time()
-        env = dict(os.environ, OVNI_REPO=dst)
+        env = dict(os.environ, OVNI_REPO=dst, VERIF_EVIDENCE_DIR=os.path.join(dst, "_evidence"))
         p = subprocess.run([os.path.join(VERIF, "bin", "check"), c, "--tier", tier], env=env, capture_output=True, text=True)
         viol = [l for l in p.stdout.splitlines() if "violation in part" in l or "corpus case fails" in l]
         res = {0: "missed", 1: "CAUGHT"}.get(p.returncode, "error rc=%d" % p.returncode)
